@@ -101,12 +101,16 @@ def solve__row(self, n, v, i, state, ph, ta):
 
 
 def sys_init__body(self, n, phase, v, i, state):
-    """initial vectors of the solver for node n: stores as a dict target -> value"""
+    """initial vectors of the solver for node n: stores as a dict target -> value.  A node none of whose sources is live starts at
+    0 V / 0 A (the laws keep it there): the first sweep must not evaluate a dead subtree with the nominal output of a converter in it"""
+    dead = {}            # per-node flag filled in topological order (parents first): read at the parents' slots only
     p = self._parents[n]
     if p == -1:
         st = DISPATCH("_get_state", n, phase, self._phase_lkup[n])
     else:
         st = {"off": [DISPATCH("_get_state", BOUND, phase, self._phase_lkup[BOUND])["off"][0] for BOUND in p]}
+        if all([dead[BOUND] for BOUND in p]):
+            return {"v": 0.0, "i": 0.0, "state": st}
     return {
         "v": DISPATCH("_get_outp_voltage", n, phase, self._phase_lkup[n]),
         "i": DISPATCH("_get_inp_current", n, phase, self._phase_lkup[n]),
